@@ -261,6 +261,9 @@ func cmdCheck(args []string) int {
 		}
 		solveAll(dir, jobs, timeout, *tier == "thorough", runtime.NumCPU())
 	}
+	if *verbose {
+		diagnoseConjuncts(dir, results)
+	}
 	tSolve := time.Since(t0).Seconds() - tLoad - tGen
 
 	rep := buildReport(ck, prop, *tier, seed, results, *verbose)
@@ -346,4 +349,92 @@ func (ck *Checker) lemmaParams(sf *SpecFunc, pkg *ssa.Package) *specSigT {
 		}
 	}
 	return sig
+}
+
+// splitAnd returns the arguments of a top-level (and ...) term.
+func splitAnd(t string) []string {
+	t = strings.TrimSpace(t)
+	if !strings.HasPrefix(t, "(and ") {
+		return nil
+	}
+	body := t[5 : len(t)-1]
+	var out []string
+	depth, start := 0, -1
+	inBar := false
+	for i := 0; i < len(body); i++ {
+		c := body[i]
+		if c == '|' {
+			inBar = !inBar
+		}
+		if inBar {
+			if start < 0 {
+				start = i
+			}
+			continue
+		}
+		switch {
+		case c == '(':
+			if depth == 0 && start < 0 {
+				start = i
+			}
+			depth++
+		case c == ')':
+			depth--
+			if depth == 0 {
+				out = append(out, body[start:i+1])
+				start = -1
+			}
+		case c == ' ' || c == '\n':
+			if depth == 0 && start >= 0 {
+				out = append(out, body[start:i])
+				start = -1
+			}
+		default:
+			if start < 0 {
+				start = i
+			}
+		}
+	}
+	if start >= 0 {
+		out = append(out, body[start:])
+	}
+	return out
+}
+
+// diagnoseConjuncts (debugging aid, -v only): for each failed obligation whose goal is a conjunction,
+// say which conjuncts fail on their own.
+func diagnoseConjuncts(dir string, results []*funcResult) {
+	for _, fr := range results {
+		for _, o := range fr.Obligations {
+			if o.Assume || o.Status == "unsat" {
+				continue
+			}
+			parts := splitAnd(o.Goal.S)
+			var flat []string
+			for len(parts) > 0 {
+				p := parts[0]
+				parts = parts[1:]
+				if sub := splitAnd(p); sub != nil {
+					parts = append(sub, parts...)
+					continue
+				}
+				// look through (=> a (and ...))
+				flat = append(flat, p)
+			}
+			if len(flat) < 2 {
+				continue
+			}
+			for _, c := range flat {
+				o2 := &Obligation{Name: o.Name + "/conjunct", PC: o.PC, Goal: Term{c, sBool}}
+				r := solve(dir, buildQuery(fr.Exec.pre, o2), 5, false, false)
+				if r.Status != "unsat" {
+					s := c
+					if len(s) > 400 {
+						s = s[:400] + "..."
+					}
+					fmt.Printf("  DIAG %s: conjunct %s: %s\n", o.Name, r.Status, s)
+				}
+			}
+		}
+	}
 }
